@@ -50,6 +50,34 @@ func checkC04(c *Ctx) {
 	// by hash equality (the structural part of C13.6; its exactness on arbitrary forests stays undecided)
 	c.importFrom(checkC13, "C04.6", "C13.6")
 
+	// C04.7 the rules see every block, in whatever order blocks reach the store: TryCommit consults CommitRule for the block
+	// it is given on every path (a block that is already in the store -- fetched from a peer before its proposal arrived --
+	// has not been through the rule: skipping it leaves the lock and the commit one block behind the published rules)
+	if tc := p.Method("protocol/consensus", "Committer", "TryCommit"); tc == nil {
+		c.Unresolved("C04.7", "Committer.TryCommit", "anchor missing")
+	} else {
+		fl := NewFlow(p, tc)
+		isRule := func(in ssa.Instruction) bool {
+			call, ok := in.(*ssa.Call)
+			if !ok || call.Call.Method == nil || call.Call.Method.Name() != "CommitRule" || len(call.Call.Args) != 1 {
+				return false
+			}
+			return fl.K.Key(call.Call.Args[0]) == "p1"
+		}
+		nilBlock := func(fs []Fact) bool {
+			for _, f := range fs {
+				if f.Op == "==" && oneIsNil(f) && nonNil(f) == "p1" {
+					return true
+				}
+			}
+			return false
+		}
+		w := cfgSearch(fl, nil, tc.Blocks[0], isReturn, isRule, nilBlock)
+		c.Check(w == nil, "C04.7", "TryCommit: the commit rule is consulted for every block presented", p.FuncPos(tc),
+			"every path through TryCommit calls ruler.CommitRule(block)",
+			"TryCommit can return at "+posOf(p, w)+" without consulting CommitRule for the block: for some order of arrival (store first, proposal later) the lock and the committed ancestor are not those of the published rules")
+	}
+
 	specs := []ruleSpec{chainedCommit(), chainedVote(), fastCommit(), fastVote(), simpleCommit(), simpleVote()}
 	for _, s := range specs {
 		fn := p.Method("protocol/rules", s.typ, s.method)
